@@ -39,6 +39,18 @@ reg('C17', 'Hypothesis generated selector instances vs constraint oracle',
     '(membership, strict order, stride of kept chunks, exact counts); the RNG inside phylib is '
     'seeded from the case so each case replays exactly.', TRUST)
 
+reg('C19', 'Hypothesis stateful (RuleBasedStateMachine) histories vs list/flag reference models',
+    'Two rule-based state machines generate connect/unconnect/reset/silence/emit histories and '
+    'progress-reporter histories; after every step the observed callback calls, arguments, return '
+    'values and announced events are compared with a reference model written from the statement. '
+    'The shrunk operation trace is the replay file.', TRUST)
+reg('C20', 'exhaustive fault-script enumeration against an in-process HTTP mock vs reference model',
+    'The whole stated space (response scripts of length <=3 x checksum behaviours x prior file '
+    'states; thorough: longer scripts, truncated bodies, body sizes around the stream chunk) is '
+    'enumerated; each run is compared with a reference model of the retry protocol and with the '
+    'safety predicate "normal return with an available checksum implies matching MD5".',
+    TRUST + ' responses as HTTP mock.', category='fault_enumeration')
+
 
 def main():
     props = [json.loads(l) for l in (HERE / 'properties.jsonl').read_text().splitlines() if l.strip()]
